@@ -128,7 +128,16 @@ func checkDurations(want, got time.Duration) bool {
 		return true
 	}
 
-	return want == got
+	// Timers are advertised in units of milliseconds.
+	return want.Truncate(time.Millisecond) == got.Truncate(time.Millisecond)
+}
+
+// sameLifetime reports whether two lifetimes are equal in the unit they are
+// advertised in, whole seconds. Our own values come from configuration and may
+// carry a fraction of a second which never appears in a received router
+// advertisement.
+func sameLifetime(want, got time.Duration) bool {
+	return want.Truncate(time.Second) == got.Truncate(time.Second)
 }
 
 // checkMTUs reports whether two NDP MTU option values are consistent, or
@@ -176,10 +185,10 @@ func checkPrefixes(want, got []ndp.Option) problems {
 			//
 			// TODO: deal with decrementing lifetimes? CoreRAD doesn't support
 			// them at the moment so we can't verify them either.
-			if a.PreferredLifetime != b.PreferredLifetime {
+			if !sameLifetime(a.PreferredLifetime, b.PreferredLifetime) {
 				ps.push("prefix_information_preferred_lifetime", prefixStr(a), a.PreferredLifetime, b.PreferredLifetime)
 			}
-			if a.ValidLifetime != b.ValidLifetime {
+			if !sameLifetime(a.ValidLifetime, b.ValidLifetime) {
 				ps.push("prefix_information_valid_lifetime", prefixStr(a), a.ValidLifetime, b.ValidLifetime)
 			}
 		}
@@ -218,7 +227,7 @@ func checkRoutes(want, got []ndp.Option) problems {
 			//
 			// TODO: deal with decrementing lifetimes? CoreRAD doesn't support
 			// them at the moment so we can't verify them either.
-			if a.Preference == b.Preference && a.RouteLifetime != b.RouteLifetime {
+			if a.Preference == b.Preference && !sameLifetime(a.RouteLifetime, b.RouteLifetime) {
 				ps.push("route_information_lifetime", routeStr(a), a.RouteLifetime, b.RouteLifetime)
 			}
 		}
@@ -249,7 +258,7 @@ func checkRDNSS(want, got []ndp.Option) problems {
 
 	// Assuming both are advertising RDNSS, the options must be identical.
 	for i := range dnsA {
-		if a, b := dnsA[i].Lifetime, dnsB[i].Lifetime; a != b {
+		if a, b := dnsA[i].Lifetime, dnsB[i].Lifetime; !sameLifetime(a, b) {
 			ps.push("rdnss_lifetime", "", a, b)
 		}
 
@@ -300,7 +309,7 @@ func checkDNSSL(want, got []ndp.Option) problems {
 
 	// Assuming both are advertising DNSSL, the options must be identical.
 	for i := range dnsA {
-		if a, b := dnsA[i].Lifetime, dnsB[i].Lifetime; a != b {
+		if a, b := dnsA[i].Lifetime, dnsB[i].Lifetime; !sameLifetime(a, b) {
 			ps.push("dnssl_lifetime", "", a, b)
 		}
 
